@@ -315,3 +315,84 @@ pub proof fn lemma_all_acceptable(m: ReManager, qu: BfsQueue<RegLan>, b: Automat
         assert(st_done(b, qu.set@, x));
     }
 }
+
+// ---- term-level view ----
+
+pub proof fn lemma_tafter_pop(m: ReManager, qu1: BfsQueue<RegLan>, qu2: BfsQueue<RegLan>, e0: RegLan, e: RegLan)
+    requires tcw_inv(m, qu1, e0), qu2.set@ == qu1.set@, qu2.set@.contains(e),
+        forall|x: RegLan| #[trigger] q_done(qu2, x) ==> q_done(qu1, x) || x == e,
+    ensures tcw_frame(m, qu2, e0, e), tpartial(m, qu2.set@, e, 0),
+{
+    lemma_sorted_len_nonneg(e);
+}
+
+pub proof fn lemma_sorted_len_nonneg(e: RegLan)
+    ensures forall|cid: ClassId| cid_rank(dclass(e), cid) >= 0,
+{
+    assert forall|cid: ClassId| cid_rank(dclass(e), cid) >= 0 by {
+        match cid { ClassId::Interval(i) => {}, ClassId::Complement => {} }
+    }
+}
+
+pub proof fn lemma_tframe_step(m1: ReManager, m2: ReManager, qu1: BfsQueue<RegLan>, qu2: BfsQueue<RegLan>, e0: RegLan, e: RegLan, d: RegLan, cid: ClassId, k: int)
+    requires tcw_frame(m1, qu1, e0, e), tpartial(m1, qu1.set@, e, k), grows(m2, m1), pushed(qu2, qu1, d),
+        cp_valid(dclass(e), cid), cid_rank(dclass(e), cid) == k, tderiv(m2, e, cid, d),
+    ensures tcw_frame(m2, qu2, e0, e), tpartial(m2, qu2.set@, e, k + 1),
+{
+    let s1 = qu1.set@;
+    let s2 = qu2.set@;
+    assert forall|x: RegLan| #[trigger] s2.contains(x) implies treach(m2, e0, x) by {
+        if s1.contains(x) { lemma_treach_grows(m2, m1, e0, x); }
+        else {
+            assert(x == d);
+            lemma_treach_grows(m2, m1, e0, e);
+            lemma_treach_step(m2, e0, e, cid, d);
+        }
+    }
+    assert forall|x: RegLan| #[trigger] q_done(qu2, x) && x != e implies tclosed_at(m2, s2, x) by {
+        if !s1.contains(x) {
+            assert(x == d);
+            assert(qu2.queue@[qu1.queue@.len() as int] == d);
+            assert(qu2.queue@.contains(d));
+        } else {
+            if qu1.queue@.contains(x) {
+                let i = choose|i: int| 0 <= i < qu1.queue@.len() && qu1.queue@[i] == x;
+                if qu2.queue@ != qu1.queue@ { assert(qu2.queue@[i] == x); }
+                assert(qu2.queue@.contains(x));
+            }
+            assert(q_done(qu1, x));
+            lemma_tclosed_mono(m2, m1, s1, s2, x);
+        }
+    }
+    assert forall|cid2: ClassId| cp_valid(dclass(e), cid2) && cid_rank(dclass(e), cid2) < k + 1 implies #[trigger] has_tderiv_in(m2, s2, e, cid2) by {
+        if cid_rank(dclass(e), cid2) == k {
+            match cid { ClassId::Interval(i) => {}, ClassId::Complement => {} }
+            match cid2 { ClassId::Interval(i) => {}, ClassId::Complement => {} }
+            assert(cid2 == cid);
+            assert(s2.contains(d));
+        } else {
+            assert(has_tderiv_in(m1, s1, e, cid2));
+            assert(m1.deriv_cache@.contains_key(DerivKey(e, cid2)));
+        }
+    }
+}
+
+pub proof fn lemma_tafter_expand(m: ReManager, qu: BfsQueue<RegLan>, e0: RegLan, e: RegLan, k: int)
+    requires tcw_frame(m, qu, e0, e), tpartial(m, qu.set@, e, k),
+        k == dclass(e).list@.len() + 1 || (k == dclass(e).list@.len() && !cp_valid(dclass(e), ClassId::Complement)),
+    ensures tcw_inv(m, qu, e0),
+{
+    assert forall|cid: ClassId| cp_valid(dclass(e), cid) implies #[trigger] has_tderiv_in(m, qu.set@, e, cid) by {
+        match cid { ClassId::Interval(i) => {}, ClassId::Complement => {} }
+    }
+    assert(tclosed_at(m, qu.set@, e));
+}
+
+pub proof fn lemma_tcompiled(m: ReManager, qu: BfsQueue<RegLan>, e0: RegLan)
+    requires tcw_inv(m, qu, e0), qu.queue@.len() == 0, qu.set@.contains(e0),
+    ensures term_closure(m, e0, qu.set@),
+{
+    assert forall|x: RegLan| #[trigger] qu.set@.contains(x) implies tclosed_at(m, qu.set@, x) by {
+        assert(q_done(qu, x));
+    }
+}
